@@ -1,5 +1,6 @@
 """C10 — semaphore permits are conserved; SyncFlag is a one-way latch (structural clauses)."""
 from lib import *
+from props import shared
 from props.shared import *
 
 EXPLANATION = ("R-ORDER enqueue-before-count and count-before-wake in Semphore/SyncFlag, R-EXIT try_wait decrements only by a CAS "
@@ -16,11 +17,13 @@ def park_err(a):
 
 def check(ctx):
     W = S + "::wait_timeout_impl"
+    # "wake one waiter" is stated on its first primitive, the pop from the waiter queue (reached through wakeup_one or directly)
+    WAKE1 = Call(SEGQ + "pop", on=S + ".to_wake")
     ctx.order(W, Call(SEGQ + "push", on=S + ".to_wake"), atomic("fetch_sub", S + ".cnt"), "enqueue-then-count",
               "a waiter is in to_wake before its decrement makes it visible to post()")
     ctx.order(W, atomic("fetch_sub", S + ".cnt"), SB_PARK, "count-then-park", "the waiter announces itself before parking")
     fs = is_call_result(A("fetch_sub"))
-    ctx.must_follow(W, None, Call(re.escape(S) + "::wakeup_one"), "late-permit-self-wake",
+    ctx.must_follow(W, None, WAKE1, "late-permit-self-wake",
                     "a waiter whose decrement found a positive count (a post slipped in after try_wait) wakes one waiter", edge=
                     lambda a: (a.kind == "cmp" and a.op == "Gt" and fs(a.a) and is_const(0)(a.b)) or (a.kind == "cmp" and a.op == "Lt" and fs(a.b) and is_const(0)(a.a)),
                     edge_label="edge `cnt.fetch_sub(1) > 0`", exits=lambda g: ctx.an.sites(g, SB_PARK, "may"))
@@ -40,16 +43,22 @@ def check(ctx):
     handshake_waiter(ctx, W, Call(re.escape(S) + "::post"), "handshake", "permit", park_err, exits_kind="ret+trigger")
     handshake_waker(ctx, S + "::wakeup_one", Call(re.escape(S) + "::post"), "waker", "permit")
     syncblocker_rules(ctx)      # the handshake primitives themselves (release is consumed atomically by exactly one side)
-    ctx.order(S + "::wakeup_one", Call(SEGQ + "pop", on=S + ".to_wake"), Call(re.escape(SB) + "::unpark"), "pop-then-unpark", "the waiter that is unparked was dequeued")
+    for g in [x for x in ctx.prog.find(re.escape(S) + "::") if ctx.an.sites(x, Call(SEGQ + "pop", on=S + ".to_wake", transitive=False), "must")]:
+        pops = ctx.an.sites(g, Call(SEGQ + "pop", on=S + ".to_wake", transitive=False), "must")
+        ups = shared.own_sites(ctx, g, Call(re.escape(SB) + "::unpark", transitive=False, where=shared._not_own_blocker))
+        r = ctx.an.reach(g, [Point(0, 0)], blocked=pops)
+        bad = sorted(u for u in ups if u in r and u not in pops)
+        ctx.ob("R-ORDER", g.id, "pop-then-unpark", bool(ups) and not bad, "the waiter that is unparked was dequeued (pop before unpark in %s)" % g.id if ups and not bad else
+               "%s unparks a waiter it did not dequeue first" % g.id, g.where((bad or sorted(pops))[0]))
     # post
     P = S + "::post"
     fa = is_call_result(A("fetch_add"))
     ctx.must_call(P, atomic("fetch_add", S + ".cnt"), "post-increments", "post always adds one permit")
-    ctx.must_follow(P, None, Call(re.escape(S) + "::wakeup_one"), "post-wakes-waiter",
+    ctx.must_follow(P, None, WAKE1, "post-wakes-waiter",
                     "a post that finds waiters (old count < 0) wakes one", edge=
                     lambda a: (a.kind == "cmp" and a.op == "Lt" and fa(a.a) and is_const(0)(a.b)) or (a.kind == "cmp" and a.op == "Gt" and fa(a.b) and is_const(0)(a.a)),
                     edge_label="edge `cnt.fetch_add(1) < 0`")
-    ctx.guarded(P, Call(re.escape(S) + "::wakeup_one"),
+    ctx.guarded(P, WAKE1,
                 lambda a: (a.kind == "cmp" and a.op == "Lt" and fa(a.a) and is_const(0)(a.b)) or (a.kind == "cmp" and a.op == "Gt" and fa(a.b) and is_const(0)(a.a)),
                 "post-wakes-only-waiters", "post pops a waiter only when the old count was negative (a waiter is guaranteed to be queued)",
                 pred_label="edge `cnt.fetch_add(1) < 0`")
